@@ -8,5 +8,6 @@ export MEASURED_REPO=${MEASURED_REPO:-/repo}
 /venv/bin/python translate/gen_grammar.py
 /venv/bin/python translate/gen_sizes.py
 /venv/bin/python translate/gen_caches.py
+/venv/bin/python translate/gen_family.py
 cd lean
 lake build Model Proofs Props Obligations driver 2>&1 | grep -v '^trace' | tail -5
